@@ -1105,6 +1105,11 @@ func (e *Eng) siteOrdinal(fr *Frame, kind, name string) int {
 	if fr.siteIns == nil {
 		return 0
 	}
+	return e.ordinalOf(fr, fr.siteIns)
+}
+
+// ordinalOf: position of the instruction among the sites of its kind and name in the function, in source order.
+func (e *Eng) ordinalOf(fr *Frame, at ssa.Instruction) int {
 	if fr.siteOrds == nil {
 		fr.siteOrds = map[ssa.Instruction]int{}
 		groups := map[string][]ssa.Instruction{}
@@ -1129,7 +1134,7 @@ func (e *Eng) siteOrdinal(fr *Frame, kind, name string) int {
 			}
 		}
 	}
-	return fr.siteOrds[fr.siteIns]
+	return fr.siteOrds[at]
 }
 
 // preProps: a precondition without property tags is a safety obligation of the caller; one that is tagged
